@@ -423,14 +423,28 @@ def mt4(F, R):
     # partition slot selection: volume index i uses block[446 + 16 i .. + 16], decided for i = 0..3; any other index is refused
     is_vi = lambda q: q[0] == "place" and strip_refs(q[1])[:2] == ("arg", 2) and tuple(q[2]) == ("0",)
     sel = {}
+
+    def _res(t_, rs_, depth=0):
+        """t_ with every local replaced by the one definition of it that is still reachable (rs_) once the volume index is
+        decided (`let start = match volume_idx { VolumeIdx(0) => PARTITION1_START, .. }; &block[start..start + 16]`)"""
+        if not isinstance(t_, tuple) or depth > 6:
+            return t_
+        if t_ and t_[0] == "var" and isinstance(t_[1], int):
+            ds_ = [d for d in orv.defs().get(t_[1], []) if d[0] == "assign" and d[1] in rs_]
+            if len(ds_) == 1 and len(orv.defs().get(t_[1], [])) > 1:
+                return _res(orv.term_of_rvalue(ds_[0][3], ds_[0][1]), rs_, depth + 1)
+            return t_
+        return tuple(_res(x, rs_, depth + 1) if isinstance(x, tuple) else x for x in t_)
+    rs_by_idx = {}
     for i_ in range(6):
         rs = orv.reach([0], cut_edges=specialise_on(orv, is_vi, i_))
+        rs_by_idx[i_] = rs
         got = set()
         for b, t in orv.calls():
             if b in rs and (callee_of(t) or "").endswith(("Index::index", "::index")):
                 r = strip_refs(orv.term_of_operand(t["args"][1], b))
                 if r[0] == "agg" and r[2] and r[2].endswith("Range") and len(r[3]) == 2:
-                    lo_, hi_ = _fold(_subst_pred(r[3][0], is_vi, i_)), _fold(_subst_pred(r[3][1], is_vi, i_))
+                    lo_, hi_ = _fold(_subst_pred(_res(r[3][0], rs), is_vi, i_)), _fold(_subst_pred(_res(r[3][1], rs), is_vi, i_))
                     if lo_ is not None and hi_ is not None and lo_ >= 64 and (lo_, hi_) != (M["signature_offset"], M["signature_offset"] + 2):
                         got.add((lo_, hi_))
         sel[i_] = (sorted(got), any(b in rs for b in pv_sites))
@@ -457,7 +471,7 @@ def mt4(F, R):
                 if not (r[0] == "agg" and r[2] and r[2].endswith("Range") and len(r[3]) == 2):
                     return False
                 for i_ in range(4):       # constant per arm, or computed from the volume index
-                    lo_, hi_ = _fold(_subst_pred(r[3][0], is_vi, i_)), _fold(_subst_pred(r[3][1], is_vi, i_))
+                    lo_, hi_ = _fold(_subst_pred(_res(r[3][0], rs_by_idx[i_]), is_vi, i_)), _fold(_subst_pred(_res(r[3][1], rs_by_idx[i_]), is_vi, i_))
                     if lo_ is None or hi_ is None or lo_ not in starts or hi_ != lo_ + 16:
                         return False
                 return True
